@@ -4,7 +4,7 @@ CONSTANTS
   HasPxd = {"a", "b"}
   Pxis = {"i"}
   MaxT = 2
-  MaxLen = 4
+  MaxLen = 3
   Cadence = 0
   Dump = FALSE
   FromFile = FALSE
